@@ -481,6 +481,7 @@ class FitsSim:
             "flip0": r.random() < 0.5,
             "p_chdir": r.choice([0.0, 0.05, 0.15]),
             "p_preexist": r.choice([0.0, 0.05, 0.12]),
+            "p_cleanup": r.choice([0.0, 0.04, 0.1]),
             "p_overwrite": r.choice([0.3, 0.5, 0.8]),
             "p_fault": r.choice([0.08, 0.15, 0.3]) if self.mode == "fault" else 0.0,
             "fault_sites": fault_sites if self.mode == "fault" else [],
@@ -658,6 +659,13 @@ class FitsSim:
                 )
                 step += 1
                 continue
+            if u < k["p_flip"] + k["p_chdir"] + k["p_preexist"] + k.get("p_cleanup", 0.0):
+                # storage event: somebody clears an output directory (a previous run's results) between two operations
+                dirs = sorted({os.path.dirname(x) for x in k["paths"] if os.path.dirname(x)})
+                if dirs:
+                    self.apply({"op": "env", "kind": "cleanup", "dir": rf.choice(dirs)}, step)
+                    step += 1
+                    continue
             client = rs.choice(clients)
             op = self.propose(client, rs)
             if op is None:
@@ -824,6 +832,19 @@ class FitsSim:
                 f.write(data)
             self.model[logical] = {"kind": "foreign", "what": what, "sha": sha(data)}
             self.log.append(ev="env", kind="preexist", path=logical, what=what, sha=sha(data))
+        elif k == "cleanup":
+            d = op["dir"]
+            top = d.split("/")[0]
+            full = self.abs_of(top)
+            cwd_abs = os.path.realpath(os.getcwd())
+            if not os.path.isdir(full) or cwd_abs == os.path.realpath(full) or cwd_abs.startswith(os.path.realpath(full) + os.sep):
+                return False  # nothing to clear, or the client is standing in it
+            shutil.rmtree(full)
+            for logical in list(self.model):
+                if logical == top or logical.startswith(top + "/"):
+                    self.model.pop(logical)
+            self.probe("output_directory_cleared")
+            self.log.append(ev="env", kind="cleanup", dir=top)
         elif k == "arm_fault":
             if self.mode != "fault":
                 return False
@@ -1459,7 +1480,7 @@ RULE = (
     "one case = one seeded run: a recipe of 3-6 library objects (Array2D masked/unmasked, Mask2D, Kernel2D, Array1D, Mask1D, Imaging; "
     "shapes 1xN/Nx1/non-square, values with sign and magnitudes 1e-300..1e300, isotropic and anisotropic pixel scales) and a schedule of "
     "15-50 operations issued by 2-4 interleaved clients (output_to_fits / from_fits / hdu_for_output -> from_primary_hdu / multi-HDU files / "
-    "Imaging output+input) over 2-5 contended logical paths, with environment events (flip_for_ds9 toggles, chdir, pre-existing targets, and in "
+    "Imaging output+input) over 2-5 contended logical paths, with environment events (flip_for_ds9 toggles, chdir, pre-existing targets, cleared output directories, and in "
     "the fault mode one-shot os.makedirs/os.remove/writeto errors and torn writes). Every operation is checked against the path->content model. "
     "A case is non-trivial when >= 2 clients interleaved or >= 1 fault fired AND >= 5 operations were checked against the model; distinct = distinct "
     "SHA-1 of (object kinds+shapes, full operation/environment sequence with targets, forms and overwrite flags)."
@@ -1469,7 +1490,7 @@ EXPECTED_PROBES = [
     "bare_name_write", "write_into_missing_directory", "dirs_created", "refused_overwrite", "overwrite_over_det", "overwrite_over_foreign_garbage",
     "overwrite_over_foreign_torn", "read_absent", "flip_true_file_roundtrip", "flip_true_hdu_roundtrip", "anisotropic_hdu_roundtrip",
     "roundtrip_1xN_or_Nx1", "roundtrip_non_square", "multi_hdu", "imaging_roundtrip", "mask_read_resized", "recovery_after_fault",
-    "path_left_indeterminate_by_fault", "zero_length_target_treated_as_absent",
+    "path_left_indeterminate_by_fault", "zero_length_target_treated_as_absent", "output_directory_cleared",
 ]
 STUBS = []
 ASSUMPTIONS = [
